@@ -534,6 +534,7 @@ func cmdCache(args []string) int {
 		}
 		concurrentNewDB(20**stress, addViol)
 		cacheHugeSQL(addViol)
+		cacheTypedNilContext(addViol)
 	}
 	for i := 0; i < *stress; i++ {
 		cacheStress(r.fork(), addViol)
@@ -542,6 +543,7 @@ func cmdCache(args []string) int {
 			cachePrepareCancel(r.fork(), addViol)
 			heldContext(r.fork(), addViol)
 			dropDBAfterTX(r.fork(), addViol)
+			cacheOtherStatements(r.fork(), addViol)
 		}
 		st.Stress++
 	}
@@ -974,6 +976,81 @@ func dropDBAfterTX(r *rng, add func(violation)) {
 	runtime.KeepAlive(stmt)
 	sqldb.Close()
 	dropFakeDB(f.name)
+}
+
+// cacheOtherStatements: between two runs of a cached Statement other statements are run on the same DB
+// whose text begins with ALTER, DROP, CREATE, VACUUM, PRAGMA ...: the second run of the unchanged query does
+// not prepare it again.
+func cacheOtherStatements(r *rng, add func(violation)) {
+	viol := func(detail string) {
+		add(violation{"C09", "unchanged-query-prepared-again", hx("S, then a schema-changing statement, then S again"), detail})
+	}
+	cacheStmtCounter++
+	stmt := sqlair.MustPrepare(fmt.Sprintf("SELECT &Person.* FROM person WHERE id = $Person.id -- ddl %d", cacheStmtCounter), Person{})
+	sqldb, f := openFake()
+	sqldb.SetMaxOpenConns(1)
+	defer func() { sqldb.Close(); dropFakeDB(f.name) }()
+	db := sqlair.NewDB(sqldb)
+	var p Person
+	db.Query(context.Background(), stmt, Person{ID: 1}).Get(&p)
+	texts := []string{"ALTER TABLE person ADD COLUMN email TEXT", "drop index if exists i", "CREATE TABLE x (a)", "VACUUM", "PRAGMA foreign_keys = ON",
+		"ANALYZE", "REINDEX", "DROP TABLE IF EXISTS y", "alter table person rename to p2", "ATTACH DATABASE 'f' AS aux", "TRUNCATE TABLE z"}
+	for i := 0; i < 1+r.intn(3); i++ {
+		other := sqlair.MustPrepare(r.pick(texts))
+		if r.chance(1, 2) {
+			db.Query(context.Background(), other).Run()
+		} else if tx, err := db.Begin(context.Background(), nil); err == nil {
+			tx.Query(context.Background(), other).Run()
+			tx.Commit()
+		}
+	}
+	pos := len(f.log())
+	db.Query(context.Background(), stmt, Person{ID: 2}).Get(&p)
+	for _, ev := range f.log()[pos:] {
+		if ev.Kind == "prepare" {
+			viol(fmt.Sprintf("the driver prepared %q again after another statement had been run in between", ev.SQL))
+		}
+	}
+}
+
+// typedNilCtx: a context of a user-defined pointer type whose methods work on the nil pointer (it is not a
+// nil context: it says it is cancelled).
+type typedNilCtx struct{}
+
+func (*typedNilCtx) Deadline() (time.Time, bool) { return time.Time{}, false }
+func (*typedNilCtx) Done() <-chan struct{}       { c := make(chan struct{}); close(c); return c }
+func (*typedNilCtx) Err() error                  { return context.Canceled }
+func (*typedNilCtx) Value(any) any               { return nil }
+
+// cacheTypedNilContext: the query is not run under a context that reports it is done, whatever its Go
+// representation.
+func cacheTypedNilContext(add func(violation)) {
+	viol := func(detail string) {
+		add(violation{"C20", "executed-although-the-context-had-ended", hx("a context whose dynamic value is a nil pointer of a user type that reports Canceled"), detail})
+	}
+	cacheStmtCounter++
+	stmt := sqlair.MustPrepare(fmt.Sprintf("SELECT &Person.* FROM person WHERE id = $Person.id -- tn %d", cacheStmtCounter), Person{})
+	sqldb, f := openFake()
+	defer func() { sqldb.Close(); dropFakeDB(f.name) }()
+	db := sqlair.NewDB(sqldb)
+	var ctx context.Context = (*typedNilCtx)(nil)
+	var p Person
+	err := db.Query(ctx, stmt, Person{ID: 1}).Get(&p)
+	if err == nil || !errors.Is(err, context.Canceled) {
+		viol(fmt.Sprintf("DB.Query: %v", err))
+	}
+	if tx, terr := db.Begin(context.Background(), nil); terr == nil {
+		err = tx.Query(ctx, stmt, Person{ID: 1}).Get(&p)
+		if err == nil || !errors.Is(err, context.Canceled) {
+			viol(fmt.Sprintf("TX.Query: %v", err))
+		}
+		tx.Rollback()
+	}
+	for _, ev := range f.log() {
+		if ev.Kind == "query" || ev.Kind == "exec" {
+			viol("the driver executed " + ev.SQL)
+		}
+	}
 }
 
 // cacheHugeSQL: a query whose generated SQL is several MiB long (a slice of 300,000 elements) is run three
